@@ -2,8 +2,75 @@
 
 use super::hist::*;
 use super::Meta;
-use crate::report::{CheckResult, Collector};
+use crate::ccx::*;
+use crate::report::{CheckResult, Collector, Fail};
+use crate::runner::report_fail;
+use crate::wire::WMsk;
 use crate::Ctx;
+use serde_json::json;
+
+/// A structure that has lived long: attributes created around every point where the encoding of
+/// an identifier grows or where an integer type could wrap (ids 126-129, 16 382-16 386,
+/// 32 766-32 770, 65 534-65 538, and some in between), all other identifiers burnt by attributes
+/// created and deleted. Every attribute must have its own right, and its key must open exactly
+/// the encapsulations made for it.
+pub fn large_ids(col: &Collector) -> CheckResult {
+    let cc = Covercrypt::default();
+    let e = |e: Error| Fail::new("large-ids-failed", short_err(&e));
+    let (mut msk, _) = cc.setup().map_err(e)?;
+    msk.access_structure.add_anarchy("BURN".into()).map_err(e)?;
+    msk.access_structure.add_anarchy("D".into()).map_err(e)?;
+    let keep: Vec<u64> = vec![5, 126, 127, 128, 129, 200, 16_382, 16_383, 16_384, 16_386, 20_000, 32_766, 32_767, 32_768, 32_770, 32_968, 50_000, 65_534, 65_535, 65_536, 65_538];
+    let last = *keep.iter().max().unwrap();
+    for i in 0..=last {
+        if keep.contains(&i) {
+            msk.access_structure.add_attribute(qa("D", &format!("k{i}")), hint(i % 5 == 0), None).map_err(e)?;
+        } else {
+            msk.access_structure.add_attribute(qa("BURN", &format!("b{i}")), hint(false), None).map_err(e)?;
+        }
+    }
+    msk.access_structure.del_dimension("BURN").map_err(e)?;
+    let mpk = cc.update_msk(&mut msk).map_err(e)?;
+    let wm = WMsk::decode(&ser(&msk)?).map_err(|e| Fail::new("codec-cannot-decode-msk", e))?;
+    let ids: Vec<u64> = wm.structure.dims.iter().flat_map(|d| d.attrs.iter().map(|a| a.id)).collect();
+    let mut sorted = ids.clone();
+    sorted.sort();
+    if sorted != keep {
+        return Err(Fail::new("attribute-ids-unexpected", format!("attribute ids of the long-lived structure: {sorted:?}, expected {keep:?}")));
+    }
+    let distinct: std::collections::BTreeSet<&Vec<u8>> = wm.rights.iter().map(|(r, _)| r).collect();
+    if wm.rights.len() != keep.len() + 1 || distinct.len() != wm.rights.len() {
+        return Err(Fail::new("rights-collide", format!("{} attributes with ids up to {last}: the master key holds {} rights ({} distinct), expected {}", keep.len(), wm.rights.len(), distinct.len(), keep.len() + 1)));
+    }
+    let mut keys = vec![];
+    let mut encs = vec![];
+    for i in &keep {
+        let ap = AccessPolicy::Term(qa("D", &format!("k{i}")));
+        keys.push(cc.generate_user_secret_key(&mut msk, &ap).map_err(e)?);
+        encs.push(cc.encaps(&mpk, &ap).map_err(e)?);
+    }
+    for (a, k) in keys.iter().enumerate() {
+        for (b, (s, x)) in encs.iter().enumerate() {
+            col.eval(1);
+            let got = match cc.decaps(k, x) {
+                Ok(Some(v)) if v == *s => true,
+                Ok(None) => false,
+                other => return Err(Fail::new("decaps-error-on-valid-objects", format!("{:?}", other.map(|o| o.is_some()).map_err(|e| short_err(&e))))),
+            };
+            if got != (a == b) {
+                return Err(Fail::new(
+                    if got { "unauthorized-key-opens" } else { "authorized-key-cannot-open" },
+                    format!("long-lived structure: key for the attribute with id {} vs encapsulation for the attribute with id {}: opens={got}", keep[a], keep[b]),
+                ));
+            }
+            if a != b {
+                col.nontrivial(&("large-ids", keep[a], keep[b]));
+            }
+        }
+    }
+    col.class("large-ids:verified");
+    Ok(())
+}
 
 fn profile(thorough: bool) -> Profile {
     Profile {
@@ -68,11 +135,17 @@ pub fn hc(thorough: bool) -> HistCheck<'static> {
 }
 
 pub fn run(ctx: &Ctx, col: &Collector) -> Meta {
+    if let Err(f) = crate::runner::guarded(|| large_ids(col)) {
+        report_fail(col, "large-ids", f, json!({}));
+    }
     let h = hc(ctx.thorough);
     run_hist(ctx, col, &h, ctx.n(8000, 60_000));
+    if col.class_count("large-ids:verified") == 0 && !col.stopped() {
+        col.note("generator unhealthy: class large-ids:verified empty");
+    }
     Meta {
         level: "exploration",
-        rule: "random histories (proptest, vec of symbolic ops interpreted against the live model state) of add/delete/rename/disable attribute, add/delete dimension, update, key generation, refresh, encapsulation and round-trips on a random base structure; after every step the serialized structure / master key are compared with a name-level model (ids never reused, hierarchy order, rights), and the full user-key x encapsulation decapsulation matrix is compared with the model at checkpoints and at the end. Non-trivial = history with an add after a delete (or a rename, or a dimension re-added) followed by an encapsulation made after an edit while user keys existed, whose matrix contains both verdicts; distinct by the whole case".into(),
+        rule: "random histories (proptest, vec of symbolic ops interpreted against the live model state) of add/delete/rename/disable attribute, add/delete dimension, update, key generation, refresh, encapsulation and round-trips on a random base structure; after every step the serialized structure / master key are compared with a name-level model (ids never reused, hierarchy order, rights), and the full user-key x encapsulation decapsulation matrix is compared with the model at checkpoints and at the end. Plus one fixed long-lived structure: 21 attributes with identifiers around 127/128, 16 383/16 384, 32 767/32 768 and 65 535/65 536 (65 000 identifiers burnt by attributes created and deleted): one right per attribute, all distinct, and the 21 x 21 key / encapsulation matrix is the identity. Non-trivial = history with an add after a delete (or a rename, or a dimension re-added) followed by an encapsulation made after an edit while user keys existed, whose matrix contains both verdicts; distinct by the whole case".into(),
         exhaustive: false,
         assumptions: vec![
             "oracle = name-level model written from the property statement and API docs (attribute identity = model uid, never reused)".into(),
@@ -81,6 +154,9 @@ pub fn run(ctx: &Ctx, col: &Collector) -> Meta {
     }
 }
 
-pub fn replay(_kind: &str, case: &serde_json::Value, col: &Collector) -> CheckResult {
+pub fn replay(kind: &str, case: &serde_json::Value, col: &Collector) -> CheckResult {
+    if kind == "large-ids" {
+        return large_ids(col);
+    }
     replay_hist(&hc(false), case, col)
 }
